@@ -25,6 +25,7 @@ type GenOpts struct {
 	// header values with blanks at their ends and with bytes that are not UTF-8: net/http yields both (HTTP/2
 	// does not trim field values; a Latin-1 value passes through), CSV and JSON cannot carry them (known findings)
 	OddHeaders bool
+	OddKeys    bool // header names with a blank before the colon, as net/http's HTTP/1.1 client accepts them
 }
 
 var textFrags = []string{"", "a", "GET", "POST", "http://goku:9090/path?x=1&y=2", `"`, ",", "\n", " ", "  lead", "trail  ", "é", "日本語", "\t", `\`, "'", ";", "{}", "[1,2]", "null", "%41", "x y", "\x00", "\r", "\r\n", "💥",
@@ -108,6 +109,10 @@ var hdrVals = []string{"", "text/plain", "a=b; Path=/", "0", `W/"x"`, "é", "a, 
 
 var oddHdrVals = []string{"  padded value  ", "v\t", " lead", "trail ", "caf\xe9", "\xff\xfe", "na\xefve  "}
 
+// "Server : nginx" is accepted by net/http's HTTP/1.1 client on purpose (go.dev/issue/34540) and yields the key
+// "Server " (CanonicalHeaderKey leaves a name that is not a token as it is)
+var oddHdrKeys = []string{"Server ", "X-Upstream "}
+
 func genHeader(t *simrt.Tape, o GenOpts) http.Header {
 	switch t.Choose(4) {
 	case 0:
@@ -119,6 +124,9 @@ func genHeader(t *simrt.Tape, o GenOpts) http.Header {
 	n := 1 + t.Choose(5)
 	for i := 0; i < n; i++ {
 		k := hdrKeys[t.Choose(len(hdrKeys))]
+		if o.OddKeys && t.Prob(1, 3) {
+			k = oddHdrKeys[t.Choose(len(oddHdrKeys))]
+		}
 		m := 1 + t.Biased(3, 2, 3)
 		for j := 0; j < m; j++ {
 			if o.OddHeaders && t.Prob(1, 3) {
@@ -322,6 +330,22 @@ func MapHeaderValues(r vegeta.Result, f func(string) string) vegeta.Result {
 	}
 	r.Headers = h
 	return r
+}
+
+// DropBlankKeys returns r without the header entries whose name ends in a blank (what writing a MIME header block
+// with http.Header.Write does to them), and whether r has headers left.
+func DropBlankKeys(r vegeta.Result) (vegeta.Result, bool) {
+	if r.Headers == nil {
+		return r, false
+	}
+	h := make(http.Header, len(r.Headers))
+	for k, vs := range r.Headers {
+		if !strings.HasSuffix(k, " ") {
+			h[k] = vs
+		}
+	}
+	r.Headers = h
+	return r, len(h) > 0
 }
 
 // TrimBlanks is what a MIME header block does to a field value: blanks and tabs at both ends go.
